@@ -37,9 +37,10 @@ structure Healthy (s : State) : Prop where
   st1 : NotFailed s.f1.status
   br : s.broken = Broken.none
 
-/-- the two folders agree as maps -/
+/-- the two folders agree as maps, for every replicated kind of file: the store list, every store's info file,
+every registry record, and the persisted registry hash modulus (`reghashmod.txt`) -/
 def Rep (s : State) : Prop :=
-  s.f0.list = s.f1.list ∧ MapEq s.f0.infos s.f1.infos ∧ MapEq s.f0.reg s.f1.reg
+  s.f0.list = s.f1.list ∧ MapEq s.f0.infos s.f1.infos ∧ MapEq s.f0.reg s.f1.reg ∧ s.f0.hashmod = s.f1.hashmod
 
 theorem readHome_notFailed (s : State) (h0 : NotFailed s.f0.status) (h1 : NotFailed s.f1.status) :
     (readHome s).failed = false := by
@@ -105,6 +106,7 @@ inductive FaultFree : State → Op → Prop
   | commit (s n c ro ad up rm) :
       CommitWF ro ad up rm (active (newTracker s).1 (newTracker s).2).reg → FaultFree s (.commit n c ro ad up rm)
   | remove (s n) : FaultFree s (.remove n)
+  | openv (s v) : FaultFree s (.openv v)
   | cold (s) : FaultFree s .cold
 
 theorem side_cases (s : State) (b : Bool) : (side s b = s.f0 ∧ side s (!b) = s.f1) ∨ (side s b = s.f1 ∧ side s (!b) = s.f0) := by
@@ -121,13 +123,13 @@ theorem rep_create (s : State) (n sl u) (h : Healthy s) (hr : Rep s) :
   split
   · exact ⟨hh, hr1⟩
   · simp only [hh.br]
-    obtain ⟨l, i, r⟩ := hr1
+    obtain ⟨l, i, r, hm⟩ := hr1
     cases ht : rt.toggler
     · -- folder 1 active
       simp only [setActive, setPassive, active, passive, setSide, side, ht, Bool.not_false, Bool.false_eq_true, ↓reduceIte, sideAdd]
-      exact ⟨healthy_of_eq hh rfl rfl rfl rfl (by first | rfl | exact hh.br.symm), rfl, (MapEq.put i n _), r⟩
+      exact ⟨healthy_of_eq hh rfl rfl rfl rfl (by first | rfl | exact hh.br.symm), rfl, (MapEq.put i n _), r, hm⟩
     · simp only [setActive, setPassive, active, passive, setSide, side, ht, Bool.not_true, Bool.false_eq_true, ↓reduceIte, sideAdd]
-      exact ⟨healthy_of_eq hh rfl rfl rfl rfl (by first | rfl | exact hh.br.symm), rfl, (MapEq.put i n _), r⟩
+      exact ⟨healthy_of_eq hh rfl rfl rfl rfl (by first | rfl | exact hh.br.symm), rfl, (MapEq.put i n _), r, hm⟩
 
 theorem rep_remove (s : State) (n) (h : Healthy s) (hr : Rep s) :
     Healthy (remove s n).1 ∧ Rep (remove s n).1 := by
@@ -137,16 +139,16 @@ theorem rep_remove (s : State) (n) (h : Healthy s) (hr : Rep s) :
   obtain ⟨s1, rt⟩ := p
   simp only at hnf hh e0 e1 ⊢
   have hr1 : Rep s1 := by unfold Rep; rw [e0, e1]; exact hr
-  obtain ⟨l, i, r⟩ := hr1
+  obtain ⟨l, i, r, hm⟩ := hr1
   have hb : (setActive s1 rt (sideRemove (active s1 rt) n
       (List.filter (fun x => !decide (x = n)) ((active s1 rt).list.getD [])))).broken = Broken.none := by
     simp only [setActive, setSide]; split <;> exact hh.br
   simp only [hb]
   cases ht : rt.toggler
   · simp only [setActive, setPassive, active, passive, setSide, side, ht, Bool.not_false, Bool.false_eq_true, ↓reduceIte, sideRemove]
-    exact ⟨healthy_of_eq hh rfl rfl rfl rfl (by first | rfl | exact hh.br.symm), rfl, (MapEq.del i n), (MapEq.dropTable r n)⟩
+    exact ⟨healthy_of_eq hh rfl rfl rfl rfl (by first | rfl | exact hh.br.symm), rfl, (MapEq.del i n), (MapEq.dropTable r n), hm⟩
   · simp only [setActive, setPassive, active, passive, setSide, side, ht, Bool.not_true, Bool.false_eq_true, ↓reduceIte, sideRemove]
-    exact ⟨healthy_of_eq hh rfl rfl rfl rfl (by first | rfl | exact hh.br.symm), rfl, (MapEq.del i n), (MapEq.dropTable r n)⟩
+    exact ⟨healthy_of_eq hh rfl rfl rfl rfl (by first | rfl | exact hh.br.symm), rfl, (MapEq.del i n), (MapEq.dropTable r n), hm⟩
 
 theorem upd_mapEq {m1 m2 : List (String × Info)} (h : MapEq m1 m2) (c : Option Int) (n : String) (i : Info) :
     MapEq (if c.isSome = true then put n i m1 else m1) (if c.isSome = true then put n i m2 else m2) := by
@@ -163,9 +165,9 @@ theorem rep_commit (s : State) (n c ro ad up rm) (h : Healthy s) (hr : Rep s)
   obtain ⟨s1, rt⟩ := p
   simp only at hnf hh e0 e1 hwf ⊢
   have hr1 : Rep s1 := by unfold Rep; rw [e0, e1]; exact hr
-  obtain ⟨l, i, r⟩ := hr1
+  obtain ⟨l, i, r, hm⟩ := hr1
   cases hg : get n (active s1 rt).infos with
-  | none => exact ⟨hh, l, i, r⟩
+  | none => exact ⟨hh, l, i, r, hm⟩
   | some inf =>
     simp only [hnf, Bool.false_eq_true, ↓reduceIte]
     cases ht : rt.toggler
@@ -178,8 +180,8 @@ theorem rep_commit (s : State) (n c ro ad up rm) (h : Healthy s) (hr : Rep s)
       simp only [setActive, setPassive, active, passive, setSide, side, ht, Bool.not_false, Bool.false_eq_true, ↓reduceIte,
         hh.br, passiveBlocked, regReplicate_ok ro ad up rm s1.f0.reg hwf']
       split
-      · exact ⟨healthy_of_eq hh rfl rfl rfl rfl (by first | rfl | exact hh.br.symm), l, upd_mapEq i c n _, MapEq.regApply r ro ad up rm⟩
-      · exact ⟨healthy_of_eq hh rfl rfl rfl rfl (by first | rfl | exact hh.br.symm), l, upd_mapEq i c n _, MapEq.regApply r ro ad up rm⟩
+      · exact ⟨healthy_of_eq hh rfl rfl rfl rfl (by first | rfl | exact hh.br.symm), l, upd_mapEq i c n _, MapEq.regApply r ro ad up rm, hm⟩
+      · exact ⟨healthy_of_eq hh rfl rfl rfl rfl (by first | rfl | exact hh.br.symm), l, upd_mapEq i c n _, MapEq.regApply r ro ad up rm, hm⟩
     · have hwf' : CommitWF ro ad up rm s1.f1.reg := by
         unfold CommitWF at hwf ⊢
         rw [← hwf]
@@ -188,8 +190,32 @@ theorem rep_commit (s : State) (n c ro ad up rm) (h : Healthy s) (hr : Rep s)
       simp only [setActive, setPassive, active, passive, setSide, side, ht, Bool.not_true, Bool.false_eq_true, ↓reduceIte,
         hh.br, passiveBlocked, regReplicate_ok ro ad up rm s1.f1.reg hwf']
       split
-      · exact ⟨healthy_of_eq hh rfl rfl rfl rfl (by first | rfl | exact hh.br.symm), l, upd_mapEq i c n _, MapEq.regApply r ro ad up rm⟩
-      · exact ⟨healthy_of_eq hh rfl rfl rfl rfl (by first | rfl | exact hh.br.symm), l, upd_mapEq i c n _, MapEq.regApply r ro ad up rm⟩
+      · exact ⟨healthy_of_eq hh rfl rfl rfl rfl (by first | rfl | exact hh.br.symm), l, upd_mapEq i c n _, MapEq.regApply r ro ad up rm, hm⟩
+      · exact ⟨healthy_of_eq hh rfl rfl rfl rfl (by first | rfl | exact hh.br.symm), l, upd_mapEq i c n _, MapEq.regApply r ro ad up rm, hm⟩
+
+/-- opening the store repository (every transaction, `RemoveBtree`) keeps the folders equal: the hash modulus is
+written to both folders or to neither -/
+theorem rep_open (s : State) (v : Nat) (h : Healthy s) (hr : Rep s) :
+    Healthy (openRepo s v) ∧ Rep (openRepo s v) := by
+  obtain ⟨hnf, hh, e0, e1, _⟩ := newTracker_healthy s h
+  unfold openRepo openRepoWith
+  generalize newTracker s = p at *
+  obtain ⟨s1, rt⟩ := p
+  simp only at hnf hh e0 e1 ⊢
+  have hr1 : Rep s1 := by unfold Rep; rw [e0, e1]; exact hr
+  split
+  · exact ⟨hh, hr1⟩
+  · split
+    · exact ⟨hh, hr1⟩
+    · obtain ⟨l, i, r, hm⟩ := hr1
+      have hb : (setActive s1 rt { active s1 rt with hashmod := some v }).broken = Broken.none := by
+        simp only [setActive, setSide]; split <;> exact hh.br
+      simp only [Bool.not_true, Bool.false_eq_true, ↓reduceIte, hb]
+      cases ht : rt.toggler
+      · simp only [setActive, setPassive, active, passive, setSide, side, ht, Bool.not_false, Bool.false_eq_true, ↓reduceIte]
+        exact ⟨healthy_of_eq hh rfl rfl rfl rfl (by first | rfl | exact hh.br.symm), l, i, r, rfl⟩
+      · simp only [setActive, setPassive, active, passive, setSide, side, ht, Bool.not_true, Bool.false_eq_true, ↓reduceIte]
+        exact ⟨healthy_of_eq hh rfl rfl rfl rfl (by first | rfl | exact hh.br.symm), l, i, r, rfl⟩
 
 theorem rep_step (s : State) (op : Op) (hop : FaultFree s op) (h : Healthy s) (hr : Rep s) :
     Healthy (step s op).1 ∧ Rep (step s op).1 := by
@@ -197,6 +223,7 @@ theorem rep_step (s : State) (op : Op) (hop : FaultFree s op) (h : Healthy s) (h
   | create n sl u => exact rep_create s n sl u h hr
   | commit n c ro ad up rm hwf => exact rep_commit s n c ro ad up rm h hr hwf
   | remove n => exact rep_remove s n h hr
+  | openv v => exact rep_open s v h hr
   | cold => exact ⟨⟨by simp [step, cold, NotFailed], by simp [step, cold, NotFailed], h.st0, h.st1, h.br⟩, hr⟩
 
 /-- a history every step of which is fault free in the state it runs in -/
@@ -218,9 +245,99 @@ theorem C27_replica (ops : List Op) : ∀ (s : State), Healthy s → Rep s → F
 
 /-- non-vacuity: a healthy, replicated start and a fault-free history that does something -/
 example : Healthy {} ∧ Rep {} ∧
-    FaultFreeRun {} [.create "sa" 4 true, .commit "sa" (some 1) [(("sa", "1"), "1/0/0/0/0")] [] [] [], .cold, .remove "sa"] := by
-  refine ⟨⟨by simp [NotFailed], by simp [NotFailed], by simp [NotFailed], by simp [NotFailed], rfl⟩, ⟨rfl, fun _ => rfl, fun _ => rfl⟩, ?_⟩
-  refine ⟨.create _ _ _ _, .commit _ _ _ _ _ _ _ (by unfold CommitWF; decide), .cold _, .remove _ _, trivial⟩
+    FaultFreeRun {} [.openv 400, .create "sa" 4 true, .commit "sa" (some 1) [(("sa", "1"), "1/0/0/0/0")] [] [] [], .cold,
+      .openv 250, .remove "sa"] := by
+  refine ⟨⟨by simp [NotFailed], by simp [NotFailed], by simp [NotFailed], by simp [NotFailed], rfl⟩, ⟨rfl, fun _ => rfl, fun _ => rfl, rfl⟩, ?_⟩
+  refine ⟨.openv _ _, .create _ _ _ _, .commit _ _ _ _ _ _ _ (by unfold CommitWF; decide), .cold _, .openv _ _, .remove _ _, trivial⟩
+
+/-! ## the replica as a set of files
+
+Every file the active side persists that a later open depends on, by kind, addressed by its path relative to the base
+folder: the store list, the registry hash modulus, one info file per store folder, and the registry records (the
+content of the segment files of a table, record by record; how records are placed in blocks is C21's matter).
+`replstat.txt` and the commit-change logs are per-folder by design and are not replicated kinds. -/
+
+inductive Kind
+  | storeList | hashMod | storeInfo | regRecord
+deriving DecidableEq, Repr
+
+inductive Content
+  | names (l : List String)
+  | num (n : Nat)
+  | info (i : Info)
+  | image (h : String)
+deriving DecidableEq, Repr
+
+/-- the content found at relative path `(folder, name)` of kind `k` in one base folder (`none` = no such file) -/
+def fileAt (x : Side) : Kind → String × String → Option Content
+  | .storeList, p => if p = ("", "storelist.txt") then x.list.map .names else none
+  | .hashMod, p => if p = ("", "reghashmod.txt") then x.hashmod.map .num else none
+  | .storeInfo, p => if p.2 = "storeinfo.txt" then (get p.1 x.infos).map .info else none
+  | .regRecord, p => (get p x.reg).map .image
+
+theorem fileAt_of_rep {s : State} (hr : Rep s) (k : Kind) (p : String × String) : fileAt s.f0 k p = fileAt s.f1 k p := by
+  obtain ⟨l, i, r, hm⟩ := hr
+  cases k with
+  | storeList => simp only [fileAt, l]
+  | hashMod => simp only [fileAt, hm]
+  | storeInfo => simp only [fileAt, i p.1]
+  | regRecord => simp only [fileAt, r p]
+
+theorem rep_of_fileAt {s : State} (h : ∀ k p, fileAt s.f0 k p = fileAt s.f1 k p) : Rep s := by
+  refine ⟨?_, ?_, ?_, ?_⟩
+  · have := h .storeList ("", "storelist.txt")
+    simp only [fileAt, ↓reduceIte] at this
+    cases e0 : s.f0.list <;> cases e1 : s.f1.list <;> simp_all
+  · intro n
+    have := h .storeInfo (n, "storeinfo.txt")
+    simp only [fileAt, ↓reduceIte] at this
+    cases e0 : get n s.f0.infos <;> cases e1 : get n s.f1.infos <;> simp_all
+  · intro k
+    have := h .regRecord k
+    simp only [fileAt] at this
+    cases e0 : get k s.f0.reg <;> cases e1 : get k s.f1.reg <;> simp_all
+  · have := h .hashMod ("", "reghashmod.txt")
+    simp only [fileAt, ↓reduceIte] at this
+    cases e0 : s.f0.hashmod <;> cases e1 : s.f1.hashmod <;> simp_all
+
+/-- **C27_replica_files.** After any fault-free history (repository opens with any hash-mod values, store creations,
+commits, removals, restarts) from a healthy replicated state, the two base folders hold the same set of
+(relative path, content) pairs for every replicated kind. -/
+theorem C27_replica_files (ops : List Op) (s : State) (h : Healthy s) (hr : Rep s) (hrun : FaultFreeRun s ops)
+    (k : Kind) (p : String × String) : fileAt (run s ops).f0 k p = fileAt (run s ops).f1 k p :=
+  fileAt_of_rep (C27_replica ops s h hr hrun).2 k p
+
+/-- **C27_same_configuration.** …hence a process that opens the database from the passive side (after a failover),
+with or without passing a hash-mod value, computes the same registry hash modulus as one opening the active side. -/
+theorem C27_same_configuration (ops : List Op) (s : State) (h : Healthy s) (hr : Rep s) (hrun : FaultFreeRun s ops)
+    (v : Nat) : effectiveMod (run s ops).f1 v = effectiveMod (run s ops).f0 v := by
+  have hm := (C27_replica ops s h hr hrun).2.2.2.2
+  unfold effectiveMod
+  rw [hm]
+
+/-- the same history run on the variant whose repository open does not replicate the hash-mod file -/
+def stepNoHashModReplication (s : State) : Op → State × String
+  | .openv v => (openRepoWith false s v, "ok")
+  | op => step s op
+
+def runNoHashModReplication (s : State) : List Op → State
+  | [] => s
+  | op :: ops => runNoHashModReplication (stepNoHashModReplication s op).1 ops
+
+/-- **Witness for the variant that does not replicate one kind** (`trackActions = false` in `NewStoreRepository`):
+a database created with modulus 400, one store, one commit, no fault at all — the passive folder lacks
+`reghashmod.txt`, every other kind is replicated, and a process opening the passive side without passing the value
+computes 250 instead of 400. The code as it is (`run`) gives 400 on both sides. -/
+theorem hashmod_not_replicated_variant :
+    let ops := [Op.openv 400, .create "sa" 4 true, .commit "sa" (some 1) [(("sa", "1"), "1/0/0/0/0")] [] [] []]
+    fileAt (runNoHashModReplication {} ops).f0 .hashMod ("", "reghashmod.txt") = some (.num 400) ∧
+    fileAt (runNoHashModReplication {} ops).f1 .hashMod ("", "reghashmod.txt") = none ∧
+    fileAt (runNoHashModReplication {} ops).f1 .storeInfo ("sa", "storeinfo.txt") =
+      fileAt (runNoHashModReplication {} ops).f0 .storeInfo ("sa", "storeinfo.txt") ∧
+    effectiveMod (runNoHashModReplication {} ops).f0 0 = 400 ∧
+    effectiveMod (runNoHashModReplication {} ops).f1 0 = 250 ∧
+    effectiveMod (run {} ops).f1 0 = 400 := by
+  refine ⟨?_, ?_, ?_, ?_, ?_, ?_⟩ <;> decide +kernel
 
 /-! ## isolation -/
 
@@ -374,6 +491,15 @@ theorem failover_forgotten_counterexample :
 theorem failover_seen_when_never_failed :
     (readHome (cold (run base [.failover]))).toggler = false := by
   decide
+
+/-- `CopyToPassiveFolders` does not copy `reghashmod.txt`, and `NewStoreRepository` rewrites it only when the ACTIVE
+folder lacks it: after a reinstate onto an empty replacement drive the passive folder has no hash-mod file (C27-F10);
+a failover later makes a process that does not pass the value fall back to modulus 250. -/
+theorem reinstate_omits_hashmod :
+    let s := run {} [.openv 400, .create "sa" 4 true, .commit "sa" (some 1) [(("sa", "1"), "1/0/0/0/0")] [] [] [],
+      .brk .drive, .openv 400, .commit "sa" (some 2) [] [] [(("sa", "1"), "2/1/1/0/0")] [], .heal false, .reinstate]
+    s.f0.hashmod = some 400 ∧ s.f1.hashmod = none ∧ effectiveMod s.f1 0 = 250 := by
+  refine ⟨?_, ?_, ?_⟩ <;> decide +kernel
 
 /-! ## what is outside the property: the drive is swapped before any write met the fault
 
